@@ -75,7 +75,9 @@ def type_hint_is_as_or_more_specific_than(hint, other) -> bool:
         try:
             return issubclass(hint_type, other_type)
         except TypeError:
-            return hint_type == other_type
+            # Not classes (e.g. the values inside `Literal[...]`); `True == 1` in python,
+            # but `Literal[True]` and `Literal[1]` admit different values
+            return type(hint_type) is type(other_type) and hint_type == other_type
     elif other_origin is None and hint_origin is not None:
         # When the hint adds specificity to an empty origin
         return hint_origin == other_type
